@@ -393,6 +393,50 @@ func runC14(rc *RunCtx) {
 		}
 		named, unnamed := namedIdx()
 		rc.Rng.Shuffle(len(named), func(i, j int) { named[i], named[j] = named[j], named[i] })
+		if kind == "attest" && min >= 2 && int64(len(named)) >= min && rc.Chance(0.15) {
+			// "the prover was away when the last signature came": min-1 named providers sign; the prover is then removed from
+			// the file by a report; the minimum-th named provider signs (nothing can be refreshed: the prover holds no proof
+			// there); the prover enrols again; a provider that has signed already signs once more. A repeated signature has
+			// no effect, whatever happened in between.
+			for _, a := range named[:min-1] {
+				sign(a, "named")
+			}
+			tx := c.DeliverAs(0, &storagetypes.MsgRequestReportForm{Creator: c.Accs[0].Bech, Prover: pAddr, Merkle: fF.Root(), Owner: wF.OwnerAddr, Start: wF.Start})
+			var rr storagetypes.MsgRequestReportFormResponse
+			if tx.OK() && tx.MsgResponse(0, &rr) == nil && rr.Success {
+				for _, a := range rr.Providers {
+					for i := 2; i < stranger; i++ {
+						if c.Accs[i].Bech == a && observe().listed {
+							c.DeliverAs(i, &storagetypes.MsgReport{Creator: a, Prover: pAddr, Merkle: fF.Root(), Owner: wF.OwnerAddr, Start: wF.Start})
+						}
+					}
+				}
+			}
+			if !observe().listed {
+				late := named[min-1]
+				b0 := observe()
+				c.DeliverAs(late, &storagetypes.MsgAttest{Creator: c.Accs[late].Bech, Prover: pAddr, Merkle: fF.Root(), Owner: wF.OwnerAddr, Start: wF.Start})
+				if a0 := observe(); a0.file != b0.file || a0.proofRec != b0.proofRec {
+					rc.Fail("C14/attest/prover-list-changed-without-quorum", "h=%d: a signature for a prover that is not on the file changed the prover list or a proof record (%q -> %q)", c.Height, b0.file, a0.file)
+				}
+				if pr := s.ProveHonest(P, wF); pr.Success {
+					if !nb() || !nb() {
+						return
+					}
+					again := named[0]
+					b1 := observe()
+					c.DeliverAs(again, &storagetypes.MsgAttest{Creator: c.Accs[again].Bech, Prover: pAddr, Merkle: fF.Root(), Owner: wF.OwnerAddr, Start: wF.Start})
+					a1 := observe()
+					rc.Eval(1)
+					if a1.proofRec != b1.proofRec {
+						rc.Fail("C14/attest/repeated-signature-had-effect", "h=%d: acc%d had signed the form already; its second signature (after the prover left the file and enrolled again) changed the prover's proof record (LastProven %d -> %d) with %d distinct named signers against a minimum of %d", c.Height, again, b1.lastProv, a1.lastProv, min-1, min)
+					}
+					rc.Count("repeated_signature_after_prover_was_away", 1)
+					rc.NonTrivial(fmt.Sprintf("attest/size%d/min%d/prover-away-then-repeat", size, min))
+				}
+			}
+			continue
+		}
 		var seq [][2]interface{}
 		add := func(a int, why string) { seq = append(seq, [2]interface{}{a, why}) }
 		switch tmpl {
